@@ -13,7 +13,7 @@
    with the later branches (Not._simple_copy does not copy its child) and end up renamed with the
    FINAL map.  `mutually_exclusive` statements (categorical expansion by the parser) use ci alone;
    their flag is not part of Syntax.stmt and is recognised by shape ([mutex_shape]). *)
-From Coq Require Import List String Ascii QArith Qcanon ZArith Bool Arith Lia DecimalString DecimalNat.
+From Coq Require Import List String Ascii QArith Qcanon ZArith Bool Arith Lia DecimalString DecimalNat NArith.
 From Polar Require Import Qcx Dist Syntax Sem.
 Import ListNotations.
 Local Open Scope string_scope.
@@ -225,10 +225,106 @@ with fl_branches (k : nat) (bs : branches) : option (list fbranch * nat) :=
       end
   end.
 
-Definition if_flatten (k : nat) (b : block) : option (list gassign * nat) := fl_block k b.
+Definition if_flatten_old (k : nat) (b : block) : option (list gassign * nat) := fl_block k b.
 
 (* Program.children = ["initial", "loop_body"]; at this stage LoopGuardTransformer has made the
    guard literally true *)
+Definition if_flatten_prog_old (k : nat) (p : prog) : option (flatprog * nat) :=
+  match p_guard p with
+  | CTrue =>
+      match if_flatten_old k (p_init p) with
+      | None => None
+      | Some (li, k1) =>
+          match if_flatten_old k1 (p_body p) with
+          | None => None
+          | Some (lb, k2) => Some ({| fp_init := li; fp_body := lb |}, k2)
+          end
+      end
+  | _ => None
+  end.
+Definition wf_prog (p : prog) : bool := wf_block (p_init p) && wf_block (p_body p).
+
+(* ================= the rule of proposed_fixes/c18_auxiliary_assignments_unconditional.diff =================
+   Assignments flagged `auxiliary` (the _old<k> copies of IfTransformer, the _t<k> temporaries of
+   simultaneous assignments, the _c<k> draws of expanded categoricals) are skipped when a branch
+   condition is distributed: they stay unconditional.  The flag is not part of Syntax; the model
+   recognises the generated names. *)
+Definition is_digit (a : ascii) : bool :=
+  let n := N_of_ascii a in (N.leb 48 n && N.leb n 57)%N.
+Fixpoint all_digits (s : string) : bool :=
+  match s with EmptyString => true | String a s' => is_digit a && all_digits s' end.
+Fixpoint strip (p x : string) : option string :=
+  match p with
+  | EmptyString => Some x
+  | String a p' => match x with String b x' => if Ascii.eqb a b then strip p' x' else None | EmptyString => None end
+  end.
+Definition tagged (p x : string) : bool :=
+  match strip p x with Some (String a r) => all_digits (String a r) | _ => false end.
+Definition is_aux (x : var) : bool := is_gen x || tagged "_t" x || tagged "_c" x.
+
+Definition strengthen_n (extra : cond) (g : gassign) : gassign :=
+  if is_aux (ga_var g) then g else strengthen extra g.
+
+Fixpoint emit_n (mx : bool) (CS : list var) (Rf : rmap) (NP : cond) (brs : list fbranch) (R : rmap) (k : nat)
+  : list gassign :=
+  match brs with
+  | [] => []
+  | cl :: brs' =>
+      let '(R', k') := extend CS (snd cl) R k in
+      let cur := if mx then fst cl else CAnd NP (fst cl) in
+      let extra := rename_c R' (if mx then R' else Rf) (csimp cur) in
+      map (strengthen_n extra) (snd cl) ++ emit_n mx CS Rf (CAnd NP (CNot (fst cl))) brs' R' k'
+  end.
+
+Definition flatten_if_n (mx : bool) (brs : list fbranch) (k : nat) : list gassign * nat :=
+  let CS := flat_map (fun cl => cvars (fst cl)) brs in
+  let '(Rf, kf) := final_R CS brs [] k in
+  (map copy_ga Rf ++ emit_n mx CS Rf CTrue brs [] k, kf).
+
+Fixpoint fln_stmt (k : nat) (st : stmt) : option (list gassign * nat) :=
+  match st with
+  | SAssign x r => Some ([{| ga_var := x; ga_cond := CTrue; ga_default := x; ga_rhs := r |}], k)
+  | SSimult _ => None
+  | SIf bs els =>
+      match fln_branches k bs with
+      | None => None
+      | Some (brs, k1) =>
+          match fln_block k1 els with
+          | None => None
+          | Some (le, k2) =>
+              let brs' := match els with BNil => brs | _ => brs ++ [(CTrue, le)] end in
+              Some (flatten_if_n (mutex_shape bs els) brs' k2)
+          end
+      end
+  end
+with fln_block (k : nat) (b : block) : option (list gassign * nat) :=
+  match b with
+  | BNil => Some ([], k)
+  | BCons st b' =>
+      match fln_stmt k st with
+      | None => None
+      | Some (l1, k1) =>
+          match fln_block k1 b' with
+          | None => None
+          | Some (l2, k2) => Some (l1 ++ l2, k2)
+          end
+      end
+  end
+with fln_branches (k : nat) (bs : branches) : option (list fbranch * nat) :=
+  match bs with
+  | BrNil => Some ([], k)
+  | BrCons c b bs' =>
+      match fln_block k b with
+      | None => None
+      | Some (l, k1) =>
+          match fln_branches k1 bs' with
+          | None => None
+          | Some (brs, k2) => Some ((c, l) :: brs, k2)
+          end
+      end
+  end.
+
+Definition if_flatten (k : nat) (b : block) : option (list gassign * nat) := fln_block k b.
 Definition if_flatten_prog (k : nat) (p : prog) : option (flatprog * nat) :=
   match p_guard p with
   | CTrue =>
@@ -242,7 +338,44 @@ Definition if_flatten_prog (k : nat) (p : prog) : option (flatprog * nat) :=
       end
   | _ => None
   end.
-Definition wf_prog (p : prog) : bool := wf_block (p_init p) && wf_block (p_body p).
+
+(* ---- hypotheses of the theorem for the new rule ---- *)
+Fixpoint assigned_stmt (st : stmt) : list var :=
+  match st with
+  | SAssign x _ => [x]
+  | SSimult l => map fst l
+  | SIf bs els => assigned_branches bs ++ assigned_block els
+  end
+with assigned_block (b : block) : list var :=
+  match b with BNil => [] | BCons st b' => assigned_stmt st ++ assigned_block b' end
+with assigned_branches (bs : branches) : list var :=
+  match bs with BrNil => [] | BrCons _ b bs' => assigned_block b ++ assigned_branches bs' end.
+
+(* auxiliaries are defined before they are read, in every iteration and on every path: Lv is the
+   list of auxiliary variables that currently hold the same value in the source run and in the
+   flattened run; an if-statement forgets those that one of its branches assigns *)
+Definition readable (Lv : list var) (x : var) : bool := negb (is_aux x) || mem x Lv.
+Definition is_some {A} (o : option A) : bool := match o with Some _ => true | None => false end.
+Fixpoint lv_stmt (Lv : list var) (st : stmt) : option (list var) :=
+  match st with
+  | SAssign x r => if forallb (readable Lv) (rhs_vars r) then Some (if is_aux x then x :: Lv else Lv) else None
+  | SSimult _ => None
+  | SIf bs els =>
+      let Lv0 := filter (fun x => negb (mem x (assigned_branches bs ++ assigned_block els))) Lv in
+      if forallb (readable Lv) (flat_map cvars (br_conds bs)) && lvb_branches Lv0 bs && is_some (lv_block Lv0 els)
+      then Some Lv0 else None
+  end
+with lv_block (Lv : list var) (b : block) : option (list var) :=
+  match b with
+  | BNil => Some Lv
+  | BCons st b' => match lv_stmt Lv st with Some Lv1 => lv_block Lv1 b' | None => None end
+  end
+with lvb_branches (Lv0 : list var) (bs : branches) : bool :=
+  match bs with
+  | BrNil => true
+  | BrCons _ b bs' => is_some (lv_block Lv0 b) && lvb_branches Lv0 bs'
+  end.
+Definition live_ok (b : block) : bool := is_some (lv_block [] b).
 
 (* the mutex flags of all if-statements in the order the transformer meets them (post-order) *)
 Fixpoint flags_stmt (st : stmt) : list bool :=
